@@ -212,6 +212,11 @@ func eval(tier string, n int) vx.Exec {
 	if cdisps[d.cd] != "" {
 		hdr.Set("Content-Disposition", cdisps[d.cd])
 	}
+	if d.b%2 == 1 {
+		// a backend that compresses: the proxies never look inside, the label must stay with the bytes
+		hdr.Set("Content-Encoding", "gzip")
+		hdr.Set("Vary", "Accept-Encoding")
+	}
 	mk := func() *backendRT {
 		return &backendRT{status: statuses[d.s], header: hdr, pieces: segment(body, segs[d.sg])}
 	}
@@ -343,6 +348,13 @@ func eval(tier string, n int) vx.Exec {
 	}
 	if bannerEligible && alreadyFramed && (cfg == "banner") && bodyChanged {
 		x.Violations = append(x.Violations, "FRAMED-BODY: an already framed request did not get the original body: "+desc)
+	}
+	if bannerEligible && alreadyFramed && (cfg == "banner" || cfg == "both") && !framed {
+		// the original body passes: apart from the cache and frame-options fields every header must pass with it
+		skip := []string{"Date", "Cache-Control", "Pragma", "Expires", "X-Frame-Options", "Content-Length"}
+		if a, b := hdrString(out.Header(), skip...), hdrString(base.Header(), skip...); a != b {
+			x.Violations = append(x.Violations, fmt.Sprintf("FRAMED-HEADERS: an already framed request got the original body but other headers: %q instead of %q: %s", a, b, desc))
+		}
 	}
 	return x
 }
